@@ -293,3 +293,47 @@ func init() {
 	mut("C12", "(benign) ContractSigHash zeroes the signatures by assignment", false, "",
 		Edit{"consensus/state.go", "\tnilSigs(&fc.RenterSignature, &fc.HostSignature)\n\treturn hashAll(\"sig/filecontract\"", "\tfc.RenterSignature, fc.HostSignature = types.Signature{}, types.Signature{}\n\treturn hashAll(\"sig/filecontract\""})
 }
+
+func init() {
+	// ---- C15 ----
+	cur := "types/currency.go"
+	mut("C15", "MulWithOverflow forgets the carry of the second cross-term addition", true, "limb-identity|types.(Currency).MulWithOverflow",
+		Edit{cur, "p0 != 0 || p2 != 0 || c0 != 0 || c1 != 0", "p0 != 0 || p2 != 0 || c0 != 0"},
+		Edit{cur, "hi, c1 := bits.Add64(hi, p3, 0)", "hi, _ = bits.Add64(hi, p3, 0)"})
+	mut("C15", "MulWithOverflow reports overflow only when both high words are set or a cross product spills (drops p2)", true, "limb-identity|types.(Currency).MulWithOverflow",
+		Edit{cur, "|| p0 != 0 || p2 != 0 ||", "|| p0 != 0 ||"},
+		Edit{cur, "p2, p3 := bits.Mul64(c.Lo, v.Hi)", "_, p3 := bits.Mul64(c.Lo, v.Hi)"})
+	mut("C15", "MulWithOverflow adds the high half of a cross product instead of the low half", true, "limb-identity|types.(Currency).MulWithOverflow",
+		Edit{cur, "hi, c1 := bits.Add64(hi, p3, 0)", "hi, c1 := bits.Add64(hi, p2, 0)"},
+		Edit{cur, "p2, p3 := bits.Mul64(c.Lo, v.Hi)", "p2, _ := bits.Mul64(c.Lo, v.Hi)"})
+	mut("C15", "Mul64WithOverflow adds the cross term with plain + (carry dropped)", true, "limb-identity|types.(Currency).Mul64WithOverflow",
+		Edit{cur, "\thi2, c0 := bits.Add64(hi0, lo1, 0)\n\treturn Currency{lo0, hi2}, hi1 != 0 || c0 != 0", "\thi2 := hi0 + lo1\n\treturn Currency{lo0, hi2}, hi1 != 0"})
+	mut("C15", "AddWithOverflow does not chain the low carry into the high limb", true, "limb-identity|types.(Currency).AddWithOverflow",
+		Edit{cur, "hi, carry := bits.Add64(c.Hi, v.Hi, carry)", "hi, carry := bits.Add64(c.Hi, v.Hi, 0)"})
+	mut("C15", "SubWithUnderflow swaps the high operands", true, "limb-identity|types.(Currency).SubWithUnderflow",
+		Edit{cur, "hi, borrow := bits.Sub64(c.Hi, v.Hi, borrow)", "hi, borrow := bits.Sub64(v.Hi, c.Hi, borrow)"})
+	mut("C15", "quoRem64 uses <= so that Div64 can be called with hi == v", true, "limb-identity|types.(Currency).quoRem64",
+		Edit{cur, "\tif c.Hi < v {\n\t\tq.Lo, r = bits.Div64(c.Hi, c.Lo, v)", "\tif c.Hi <= v {\n\t\tq.Lo, r = bits.Div64(c.Hi, c.Lo, v)"})
+	mut("C15", "quoRem64 second division forgets the first remainder", true, "limb-identity|types.(Currency).quoRem64",
+		Edit{cur, "q.Lo, r = bits.Div64(r, c.Lo, v)\n\t}", "q.Lo, r = bits.Div64(0, c.Lo, v)\n\t}"})
+	mut("C15", "Cmp compares the low words first", true, "order|Cmp",
+		Edit{cur, "c.Hi < v.Hi || (c.Hi == v.Hi && c.Lo < v.Lo)", "c.Lo < v.Lo || (c.Lo == v.Lo && c.Hi < v.Hi)"})
+	mut("C15", "Cmp drops the equality conjunct", true, "order|Cmp",
+		Edit{cur, "c.Hi < v.Hi || (c.Hi == v.Hi && c.Lo < v.Lo)", "c.Hi < v.Hi || c.Lo < v.Lo"})
+	mut("C15", "Sub ignores the underflow flag", true, "wrapper|Sub",
+		Edit{cur, "\ts, underflow := c.SubWithUnderflow(v)\n\tif underflow {\n\t\tpanic(\"underflow\")\n\t}\n\treturn s", "\ts, _ := c.SubWithUnderflow(v)\n\treturn s"})
+	mut("C15", "Div returns the remainder", true, "wrapper|Div:returns-quotient",
+		Edit{cur, "\tq, _ := c.quoRem(v)\n\treturn q", "\t_, q := c.quoRem(v)\n\treturn q"})
+	mut("C15", "parseHastings accepts up to 129 bits", true, "parser|hastings:128-bit",
+		Edit{cur, "i.BitLen() > 128", "i.BitLen() > 129"})
+	mut("C15", "parseHastings no longer rejects negatives", true, "parser|hastings:non-negative",
+		Edit{cur, "\t} else if i.Sign() < 0 {\n\t\treturn ZeroCurrency, errors.New(\"value cannot be negative\")\n", ""})
+	mut("C15", "String prints KS for 10^30", true, "parser|units:tables-agree",
+		Edit{cur, "\"SC\", \"KS\", \"MS\", \"GS\", \"TS\"}[u-4]", "\"SC\", \"MS\", \"KS\", \"GS\", \"TS\"}[u-4]"})
+	mut("C15", "ParseCurrency truncates fractional hastings instead of rejecting", true, "parser|currency:integral-hastings",
+		Edit{cur, "\tif !r.IsInt() {\n\t\treturn ZeroCurrency, errors.New(\"not an integer\")\n\t}\n\treturn parseHastings(r.RatString())", "\treturn parseHastings(new(big.Int).Quo(r.Num(), r.Denom()).String())"})
+	mut("C15", "(benign) Mul64WithOverflow with renamed temporaries and reordered disjuncts", false, "",
+		Edit{cur, "\thi2, c0 := bits.Add64(hi0, lo1, 0)\n\treturn Currency{lo0, hi2}, hi1 != 0 || c0 != 0", "\tsum, carry := bits.Add64(lo1, hi0, 0)\n\treturn Currency{Lo: lo0, Hi: sum}, carry != 0 || hi1 > 0"})
+	mut("C15", "(benign) Cmp written as a switch", false, "",
+		Edit{cur, "\tif c == v {\n\t\treturn 0\n\t} else if c.Hi < v.Hi || (c.Hi == v.Hi && c.Lo < v.Lo) {\n\t\treturn -1\n\t} else {\n\t\treturn 1\n\t}", "\tswitch {\n\tcase c.Hi != v.Hi:\n\t\tif c.Hi < v.Hi {\n\t\t\treturn -1\n\t\t}\n\t\treturn 1\n\tcase c.Lo < v.Lo:\n\t\treturn -1\n\tcase c.Lo > v.Lo:\n\t\treturn 1\n\t}\n\treturn 0"})
+}
